@@ -35,6 +35,10 @@ LEVEL_TEXT = ("Lean 4 theorems, for all networks (any number of points and clust
               "PE.projectEquations + netSolve: a run that stopped normally, re-started from its exported coordinates and its "
               "observations without reductions, is after gama-local's first refine_obsdh_reductions in the state it stopped in, does "
               "zero iterations and reports the same adjustment, for k rounds; (parse o export)^k = parse o export. "
+              "Round 13: a concrete loader (PD order, ids -> positions, OD order with classes and from_dh/to_dh; value / covariance / "
+              "orientation conversions as parameters) for which 'the exported network describes the state' is proved, so the "
+              "document-level theorem has no Loader/Describes hypothesis; Obs.WF of every accepted <obs> element; an evaluated "
+              "non-degenerate instance (levelling network, envelope/cholesky/gso). "
               "Props/C13Removed.lean: finding F29 characterised (the abs-term stage of the re-run reproduces the active flags iff "
               "the test's verdict at the exported coordinates equals the one at the given coordinates; NEG witness = the corpus "
               "reproducer's observation with C14's regenerated test over Q; F29 stays a KNOWN finding, F30 is fixed by /repo 281bcf7). "
@@ -79,10 +83,13 @@ ASSUMPTIONS = ["Codec.LawfulOn R / Codec.PrinterOn D q qc qd for the numbers wri
                "the exported run had converged",
                "Props/C13Rerun.lean: exact codec (with a printer of finitely many digits the re-import starts from quantNet, a state "
                "near the one the run stopped in; the margins of the stopping tests are not bounded against the quantisation: "
-               "oracle); Loader / Describes: how the parsed document becomes PD / OD (constructors, Acord2) and that export_xml "
-               "writes the state are hypotheses of the document-level theorem (tied by the doc and net streams); hred: an "
-               "observation no branch of refine_obsdh_reductions applies to carries reduction 0; the non-degenerate instance of "
-               "the peEnv theorem is over an abstract adjustment (C06's Ex), the peEnv instance is the empty network",
+               "oracle); C13_readjustment_identical_concrete: the conversions Conv (stored value from the document's number, covariance "
+               "matrix of a cluster, orientation the program computes for a document, xNorthAngle) are parameters; SameShape "
+               "(the loop changes coordinates, orientations, reductions only) is a hypothesis, not proved as a loop invariant; "
+               "orientations are not exported: for networks with directions the equality of the re-run's orientations with the "
+               "first run's final ones is a hypothesis (zero iterations there: oracle); hred: an observation no branch of "
+               "refine_obsdh_reductions applies to carries reduction 0; evaluated instance: a levelling network (no reductions, "
+               "no orientations)",
                "Props/C13Removed.lean: the abs-term test is a function of PD and the observation (parameter `test`; the real one for "
                "coordinate differences is C14's regenerated test on C05's right-hand side, used in the witness)"]
 
